@@ -57,6 +57,22 @@ class CountingObjective:
         return d
 
 
+class ConsultCounting:
+    """A user-written global stop condition with internal state (how often it was consulted), around a shipped one.
+    Module-level class: pickled by reference, its state travels with the snapshot."""
+
+    def __init__(self, inner):
+        self.inner = inner
+        self.consults = 0
+
+    def __call__(self, tree):
+        self.consults += 1
+        return self.inner(tree)
+
+    def __str__(self):
+        return f"ConsultCounting({self.inner})"
+
+
 def build(desc):
     box = box_array(desc.get("box", "B_asym"))
     mx = desc.get("maximize", False)
@@ -81,6 +97,8 @@ def build(desc):
         levels.append(make_level(e, p, lsc, desc.get("gens", 1), box, desc))
     g = desc.get("gsc", {"kind": "metaepoch", "n": desc["Mh"]})
     gsc = MetaepochLimit(g["n"]) if g["kind"] == "metaepoch" else SingularProblemEvalLimitReached(g["n"])
+    if desc.get("stateful_gsc"):
+        gsc = ConsultCounting(gsc)
     sm = make_sprout(desc["sprout"], None, box)
     cfg = TreeConfig(levels, gsc, sm, options={"random_seed": desc["seed"], "hibernation": desc.get("hib", False)})
     return DemeTree(cfg), objs
@@ -155,7 +173,13 @@ def run_world(res, desc, tmpdir):
         calls_before = calls_of(tree)
         st_np = np.random.get_state()[1].tobytes(), np.random.get_state()[2]
         st_py = random.getstate()
+        consults_before = getattr(tree.config.gsc, "consults", None)
         tree.pickle_dump(path)
+        if consults_before is not None:
+            res.flags["snapshot of a tree whose stop condition has internal state"] += 1
+            if tree.config.gsc.consults != consults_before:
+                res.add_violation(ID, "C19/dump-consulted-stop-condition", f"pickle_dump at boundary {k} consulted the global stop condition ({tree.config.gsc.consults - consults_before} times): "
+                                  "the state of a user-written condition changed by dumping", {}, rep)
         rng_after = (np.random.get_state()[1].tobytes(), np.random.get_state()[2]), random.getstate()
         after = observe(tree)
         res.executions += 1
@@ -174,7 +198,9 @@ def run_world(res, desc, tmpdir):
             if before[fld] != after[fld]:
                 res.add_violation(ID, f"C19/dump-altered-live-tree:{fld}", f"pickle_dump at boundary {k} of {desc['engines']} changed the live tree ({fld})", {}, rep)
         loaded = DemeTree.pickle_load(path)
-        os.remove(path)
+        if consults_before is not None and getattr(loaded.config.gsc, "consults", None) != consults_before:
+            res.add_violation(ID, "C19/loaded-differs:stop-condition-state", f"the stop condition of the tree loaded from the snapshot at boundary {k} was consulted "
+                              f"{getattr(loaded.config.gsc, 'consults', None)} times, the live one {consults_before} times at the moment of the dump", {}, rep)
         lo = observe(loaded)
         for fld in flds:
             if before[fld] != lo[fld]:
@@ -225,6 +251,24 @@ def run_world(res, desc, tmpdir):
                 res.transitions.add(h64((s, "continued", k, steps, h64(canonical_state(loaded, False)))))
         except Exception as e:
             res.add_violation(ID, f"C19/continued:exception:{type(e).__name__}", f"loaded tree (snapshot at boundary {k}) raised {type(e).__name__}: {e}", {}, rep)
+        # the same snapshot file read a second time, after the first restored tree has moved on: again the tree of boundary k
+        try:
+            again = DemeTree.pickle_load(path)
+            ag = observe(again)
+            if again is loaded:
+                res.add_violation(ID, "C19/second-load-same-object", f"loading the snapshot of boundary {k} twice returned the very same tree object", {}, rep)
+            else:
+                for fld in flds:
+                    if before[fld] != ag[fld]:
+                        res.add_violation(ID, f"C19/second-load-differs:{fld}", f"the snapshot of boundary {k} of {desc['engines']}, loaded a second time after the first restored tree had run on, "
+                                          f"differs from the original ({fld})", {}, rep)
+                        break
+                else:
+                    if steps:
+                        res.flags["snapshot loaded a second time after the first copy ran on"] += 1
+        except Exception as e:
+            res.add_violation(ID, f"C19/second-load:exception:{type(e).__name__}", f"second pickle_load of the snapshot at boundary {k} raised {type(e).__name__}: {e}", {}, rep)
+        os.remove(path)
         if len(tree.all_demes) >= 2 and steps >= 1:
             res.nontrivial.add(h64((desc, k)))
         res.flags[f"continued {min(steps, 3)}+ steps" if steps else "snapshot at the final boundary"] += 1
@@ -271,6 +315,8 @@ def worlds(tier, seed):
                          sprout={"kind": ("simple", "nbc")[k % 2], "L": 2}, lsc=[None] + [{"kind": "metaepoch", "m": 2}] * (len(eng) - 1))
                 if k % 5 == 0:
                     d["gsc"] = {"kind": "evals", "n": 70}
+                if k % 3 == 1:
+                    d["stateful_gsc"] = True
                 out.append(d)
     # three levels, two long-lived middle demes that sprout alternately: the ORDER of the demes on a level is part of the tree
     for j, eng in enumerate([("SEA", "DE", "SEA"), ("DE", "SEA", "SHADE"), ("LHS", "GA", "DEd")]):
@@ -302,7 +348,8 @@ def run_unit(unit):
 def finish(res, tier):
     if len(res.nontrivial) < 60:
         raise Vacuous("few non-trivial snapshot points")
-    for f in ("snapshot with a live CMA-ES deme", "snapshot with a hibernating deme", "snapshot at the final boundary", "restored and live tree made the same next metaepoch", "snapshot with interleaved level-2 demes"):
+    for f in ("snapshot with a live CMA-ES deme", "snapshot with a hibernating deme", "snapshot at the final boundary", "restored and live tree made the same next metaepoch", "snapshot with interleaved level-2 demes",
+              "snapshot of a tree whose stop condition has internal state", "snapshot loaded a second time after the first copy ran on"):
         if res.flags[f] < 5:
             raise Vacuous(f"'{f}' seen {res.flags[f]} times")
     return {"snapshot_points": res.executions, "exhaustive": True}
